@@ -71,7 +71,10 @@ inline size_t gen_long_len(pbt::Source& src, size_t cap = 5000, int huge = HUGE_
     case 4: n = (size_t)src.range(13, 254); break;
     case 5: n = (size_t)src.range(41, 1000); break;
     case 6: n = (size_t)src.range(1000, 5000); break;
-    default: n = huge == HUGE_OK ? 65535 + (size_t)src.range(0, 465) : (size_t)src.range(1000, 5000); break;
+    default:
+        if (huge == HUGE_OK) return 65535 + (size_t)src.range(0, 465); // 16-bit boundary; only where the caller's oracle is linear
+        n = (size_t)src.range(1000, 5000);
+        break;
     }
     if (n > cap) n = cap - n % 5;
     return n;
